@@ -41,17 +41,20 @@ if not a.skip_confirm:
     if not (rc0 == 0 and rc1 != 0 and res["tests_same"]):
         print("NOT CONFIRMED", o0[-500:], o1[-500:], base_tests, mut_tests); sys.exit(3)
 # our checks
-rc, o = sh(f"git -C /repo apply {patch}")
+# (in the scratch worktree itself, never in /repo: PYTHONPATH / LADIM2_VERIF_REPO point the checks at it, evidence goes to a scratch directory)
+rc, o = sh(f"git -C {wt} apply {patch}")
 if rc != 0:
-    print("patch does not apply to /repo HEAD:", o); sys.exit(4)
+    print("patch does not apply to the worktree HEAD:", o); sys.exit(4)
 verdicts = {}
+cenv = dict(os.environ, PYTHONPATH=str(wt), LADIM2_VERIF_REPO=str(wt), LADIM2_VERIF_OUT=f"/dev/shm/seedtest_out_{wt.name}")
 try:
     for p in [a.prop] + [x for x in a.props.split(",") if x]:
-        rc, out = sh(f"./check {p} --tier {a.tier}", cwd="/verif", timeout=3600)
+        rc, out = sh(f"./check {p} --tier {a.tier}", cwd="/verif", env=cenv, timeout=3600)
         lines = [l for l in out.splitlines() if l.startswith("VIOLATION") or l.startswith("  [") or l.startswith("HARNESS")]
         verdicts[p] = dict(rc=rc, lines=lines[:6])
 finally:
-    sh("git -C /repo checkout -- .")
+    sh(f"git -C {wt} checkout -- ladim")
+    shutil.rmtree(f"/dev/shm/seedtest_out_{wt.name}", ignore_errors=True)
 res["checks"] = verdicts
 print(json.dumps(res, indent=1))
 if a.keep:
